@@ -2,11 +2,10 @@
    value is a function of the answer of the one backend the URI is routed to. *)
 From Coq Require Import ZArith List Bool Lia Arith.
 From Common Require Import Res.
-From Routing Require Import Model Proofs_Tables Proofs_Group.
+From Routing Require Import Model Scheme Obs Spec Proofs_Tables Proofs_Group.
 Import ListNotations.
 Open Scope Z_scope.
 
-Definition keys (m : rmap) : list uri := map fst m.
 
 Lemma rget_rset m k v u : rget (rset m k v) u = if uri_eqb u k then Some v else rget m u.
 Proof.
